@@ -1,4 +1,5 @@
 import ChiaModel.Lemmas.BundleInv
+import ChiaModel.Lemmas.NativeInv
 /-
 C02 — accepted bundles conserve value and never duplicate coins (model of `parse_spends`).
 -/
@@ -119,5 +120,225 @@ theorem accepted_invariants (env : Env) (sigOk : List (Bytes × Bytes) → Bool)
     simp only [List.mem_map] at hsp
     obtain ⟨sp0, h0, rfl⟩ := hsp
     exact ⟨(b7 sp0 h0).1, (b7 sp0 h0).2.1⟩
+
+/-- the conclusions of `accepted_invariants` as one predicate on a reported bundle -/
+def Invariants (b : Bundle) : Prop :=
+  b.additionAmount + b.reserveFee ≤ b.removalAmount ∧
+  b.removalAmount = (b.spends.map (·.coinAmount)).sum ∧
+  b.additionAmount = (b.spends.map (fun sp => (sp.createCoin.map (·.amount)).sum)).sum ∧
+  b.conditionCost = (b.spends.map (·.conditionCost)).sum ∧
+  (b.spends.map (·.coinId)).Nodup ∧
+  (∀ sp ∈ b.spends, (sp.createCoin.map (fun c => (c.ph, c.amount))).Nodup) ∧
+  (∀ sp ∈ b.spends, sp.coinId = sha256 (sp.parentId ++ sp.puzzleHash ++ canonNat sp.coinAmount) ∧ sp.coinAmount < 2^64)
+
+/-- (auxiliary) the loop invariant plus the final validation give `Invariants` for any record that
+agrees with the post-processed bundle on spends and totals -/
+theorem invariants_of_BInv (env : Env) (ret : Bundle) (st : PState) (hinv : BInv ret st)
+    (hv : validateConditions (postProcess env ret st) st = .ok ()) (b : Bundle)
+    (e1 : b.spends = (postProcess env ret st).spends) (e2 : b.removalAmount = (postProcess env ret st).removalAmount)
+    (e3 : b.additionAmount = (postProcess env ret st).additionAmount) (e4 : b.reserveFee = (postProcess env ret st).reserveFee)
+    (e5 : b.conditionCost = (postProcess env ret st).conditionCost) : Invariants b := by
+  have hc := validate_conservation hv
+  obtain ⟨g, hg, r1, r2, r3, r4⟩ := postProcess_spends env ret st
+  obtain ⟨b1, b2, b3, b4, b5, b6, b7⟩ := hinv
+  have hmap : ∀ {β : Type} (f : Spend → β), (∀ sp fl, f { sp with flags := fl } = f sp) →
+      List.map f (ret.spends.map (fun sp => { sp with flags := g sp })) = List.map f ret.spends := by
+    intro β f hf
+    rw [List.map_map]
+    apply List.map_congr_left
+    intro sp _
+    exact hf sp (g sp)
+  unfold Invariants
+  rw [e1, e2, e3, e4, e5]
+  refine ⟨hc, ?_⟩
+  simp only [r1, r2, r4]
+  rw [hg, hmap (·.coinAmount) (fun _ _ => rfl), hmap (fun sp => (sp.createCoin.map (·.amount)).sum) (fun _ _ => rfl),
+    hmap (·.conditionCost) (fun _ _ => rfl), hmap (·.coinId) (fun _ _ => rfl)]
+  refine ⟨b1, b2, b6, by rw [← b3]; exact b4, ?_, ?_⟩
+  · intro sp hsp
+    simp only [List.mem_map] at hsp
+    obtain ⟨sp0, h0, rfl⟩ := hsp
+    exact b5 sp0 h0
+  · intro sp hsp
+    simp only [List.mem_map] at hsp
+    obtain ⟨sp0, h0, rfl⟩ := hsp
+    exact ⟨(b7 sp0 h0).1, (b7 sp0 h0).2.1⟩
+
+open ChiaModel.Gn
+
+/-- (auxiliary) decomposition of `finishBundle` -/
+theorem finishBundle_ok {env : Env} {sigOk : List (Bytes × Bytes) → Bool} {ret ret' : Bundle} {st : PState}
+    (hb : finishBundle env sigOk ret st = .ok ret') :
+    validateConditions (postProcess env ret st) st = .ok () ∧
+    ret' = { postProcess env ret st with validatedSignature := !hasFlag env.flags Gen.flagDontValidateSignature } := by
+  unfold finishBundle at hb
+  simp only at hb
+  cases hv : validateConditions (postProcess env ret st) st with
+  | error e => rw [hv] at hb; cases hb
+  | ok u =>
+    rw [hv] at hb; simp only at hb
+    split at hb
+    · cases hb
+    · injection hb with hb
+      exact ⟨rfl, hb.symm⟩
+
+/-- **C02 for `run_block_generator2`.**  Whenever the native path accepts a block whose generator
+output consists of byte-string atoms, the reported bundle satisfies all of `Invariants`
+(conservation, totals, distinct coin ids, distinct outputs per spend, coin-id formula), and the
+reported puzzle hash of the i-th spend is the tree hash of the i-th revealed puzzle. -/
+theorem native_invariants (p : Params) (g : GenInput) (c : Nat) (out : Sexp) (puz : Nat → RunRes) (L : Nat) (b : Bundle)
+    (hab : out.AllBytes) (h : native p g (some (c, out)) puz L = .ok b) :
+    Invariants b ∧ ∃ allSpends, first out = .ok allSpends ∧
+      b.spends.map (·.puzzleHash) = (puzzlesOf allSpends).map Sexp.treeHash := by
+  rw [native_eq] at h
+  by_cases h0 : simpleGen p.flags ∧ !g.startsQuote
+  · rw [if_pos h0] at h; cases h
+  rw [if_neg h0] at h
+  cases hl : nativeCountdown p g (some (c, out)) puz L with
+  | error e => rw [hl] at h; cases h
+  | ok q =>
+    obtain ⟨⟨ret, st⟩, left⟩ := q
+    rw [hl] at h; simp only at h
+    cases hb : finishBundle (nativeEnv p) p.sigOk ret st with
+    | error e => rw [hb] at h; cases h
+    | ok ret' =>
+      rw [hb] at h; simp only at h
+      injection h with h
+      obtain ⟨hv, hr⟩ := finishBundle_ok hb
+      -- open the countdown
+      unfold nativeCountdown at hl
+      obtain ⟨⟨_, m0⟩, _, hl⟩ := bind_ok hl
+      simp only at hl
+      by_cases h1 : (!generatorNodeOk p.flags g.prog) = true
+      · rw [if_pos h1] at hl; cases hl
+      rw [if_neg h1] at hl
+      by_cases h2 : simpleGen p.flags = true ∧ g.nrefs > 0
+      · rw [if_pos h2] at hl; cases hl
+      rw [if_neg h2] at hl
+      obtain ⟨⟨r, m1⟩, hrun, hl⟩ := bind_ok hl
+      simp only at hl
+      have hr2 : r = (c, out) := by
+        unfold runCharge runWithLimit at hrun
+        simp only at hrun
+        split at hrun
+        · cases hrun
+        · rename_i heq
+          split at heq
+          · cases heq
+          · injection heq with heq
+            split at hrun
+            · cases hrun
+            · injection hrun with hrun; injection hrun with hrun; rw [← hrun, ← heq]
+      subst hr2
+      simp only at hl
+      cases hf : first out with
+      | error e => rw [hf] at hl; cases hl
+      | ok allSpends =>
+        rw [hf] at hl; simp only at hl
+        by_cases h3 : (!allExtract3 allSpends) = true
+        · rw [if_pos h3] at hl; cases hl
+        rw [if_neg h3] at hl
+        have hinv : BInv ret st := nativeLoop_inv (nativeEnv p) puz BInv
+          (fun ret st c hq => by obtain ⟨a1, a2, a3, a4, a5, a6, a7⟩ := hq; exact ⟨a1, a2, a3, a4, a5, a6, a7⟩)
+          (fun ret st parent h32 amount conds cc m ret' st' m' hq ha hp =>
+            BInv_processSingleSpend (nativeEnv p) cc ret st parent (.atom h32) amount conds m ret' st' m' hq ha hp)
+          allSpends 0 _ _ _ m1 ret st left (first_allBytes hf hab) hl (by
+            obtain ⟨a1, a2, a3, a4, a5, a6, a7⟩ := BInv_init; exact ⟨a1, a2, a3, a4, a5, a6, a7⟩)
+        have hph := nativeLoop_puzzleHashes (nativeEnv p) puz allSpends 0 _ _ _ m1 ret st left hl
+        refine ⟨invariants_of_BInv (nativeEnv p) ret st hinv hv b ?_ ?_ ?_ ?_ ?_, allSpends, rfl, ?_⟩
+        · rw [← h, hr]
+        · rw [← h, hr]
+        · rw [← h, hr]
+        · rw [← h, hr]
+        · rw [← h, hr]
+        · obtain ⟨g', hg, _⟩ := postProcess_spends (nativeEnv p) ret st
+          rw [← h, hr]
+          simp only [hg, List.map_map]
+          simp only [List.map_nil, List.nil_append] at hph
+          rw [← hph]
+          apply List.map_congr_left
+          intro sp _; rfl
+
+/-- **C02 for `run_spendbundle`** (mempool path).  Every accepted spend bundle satisfies
+`Invariants`; the reported puzzle hash of each spend is the tree hash of the puzzle revealed in the
+corresponding coin spend, and that equals the puzzle hash declared by the coin. -/
+theorem spendbundle_invariants (p : Params) (spends : List CoinSpendM) (puz : Nat → RunRes) (L : Nat)
+    (b : Bundle) (pk : List (Bytes × Bytes)) (h : runSpendbundle p spends puz L = .ok (b, pk)) :
+    Invariants b ∧ b.spends.map (·.puzzleHash) = spends.map (fun cs => Sexp.treeHash cs.puzzle) ∧
+      ∀ cs ∈ spends, cs.puzzleHash = Sexp.treeHash cs.puzzle := by
+  rw [runSpendbundle_eq] at h
+  cases hl : bundleCountdown p spends puz L with
+  | error e => rw [hl] at h; cases h
+  | ok q =>
+    obtain ⟨⟨ret, st⟩, left⟩ := q
+    rw [hl] at h; simp only at h
+    cases hv : validateConditions (postProcess (bundleEnv p) ret st) st with
+    | error e => rw [hv] at h; cases h
+    | ok u =>
+      rw [hv] at h; simp only at h
+      injection h with h; injection h with h hpk
+      unfold bundleCountdown at hl
+      obtain ⟨⟨_, m0⟩, _, hl⟩ := bind_ok hl
+      simp only at hl
+      by_cases h1 : hasFlag p.flags Gen.flagLimitSpends = true ∧ spends.length > MAX_SPENDS_PER_BLOCK
+      · rw [if_pos h1] at hl; cases hl
+      rw [if_neg h1] at hl
+      have hinv : BInv ret st := bundleLoop_inv (bundleEnv p) puz BInv
+        (fun ret st c hq => by obtain ⟨a1, a2, a3, a4, a5, a6, a7⟩ := hq; exact ⟨a1, a2, a3, a4, a5, a6, a7⟩)
+        (fun ret st parent h32 amount conds cc m ret' st' m' hq ha hp =>
+          BInv_processSingleSpend (bundleEnv p) cc ret st parent (.atom h32) amount conds m ret' st' m' hq ha hp)
+        spends 0 _ _ m0 ret st left hl BInv_init
+      obtain ⟨hph, hdecl⟩ := bundleLoop_puzzleHashes (bundleEnv p) puz spends 0 _ _ m0 ret st left hl
+      refine ⟨invariants_of_BInv (bundleEnv p) ret st hinv hv b ?_ ?_ ?_ ?_ ?_, ?_, hdecl⟩
+      · rw [← h]
+      · rw [← h]
+      · rw [← h]
+      · rw [← h]
+      · rw [← h]
+      · obtain ⟨g', hg, _⟩ := postProcess_spends (bundleEnv p) ret st
+        rw [← h]
+        simp only [hg, List.map_map]
+        simp only [List.map_nil, List.nil_append] at hph
+        rw [← hph]
+        apply List.map_congr_left
+        intro sp _; rfl
+
+/-- **C02 for `run_block_generator`** (legacy ROM path): the conditions it reports are those of
+`parse_spends` on the ROM's output, so `Invariants` holds for every accepted block. -/
+theorem legacy_invariants (p : Params) (g : GenInput) (c : Nat) (out : Sexp) (L : Nat) (b : Bundle)
+    (hab : out.AllBytes) (h : legacy p g (some (c, out)) L = .ok b) : Invariants b := by
+  unfold legacy at h
+  by_cases h0 : simpleGen p.flags ∧ !g.startsQuote
+  · rw [if_pos h0] at h; cases h
+  rw [if_neg h0] at h
+  by_cases h1 : simpleGen p.flags ∧ g.nrefs > 0
+  · rw [if_pos h1] at h; cases h
+  rw [if_neg h1] at h
+  cases hc1 : subtractCost L (g.len * p.costPerByte) with
+  | error e => rw [hc1] at h; cases h
+  | ok cl1 =>
+    rw [hc1] at h; simp only at h
+    by_cases h2 : (!generatorNodeOk p.flags g.prog) = true
+    · rw [if_pos h2] at h; cases h
+    rw [if_neg h2] at h
+    simp only [runWithLimit] at h
+    by_cases h3 : c > cl1
+    · rw [if_pos h3] at h; cases h
+    rw [if_neg h3] at h; simp only at h
+    cases hc2 : subtractCost cl1 c with
+    | error e => rw [hc2] at h; cases h
+    | ok cl2 =>
+      rw [hc2] at h; simp only at h
+      cases hp : parseSpends { flags := p.flags, mempool := false, pkOk := p.pkOk } p.sigOk out cl2 0 with
+      | error e => rw [hp] at h; cases h
+      | ok r =>
+        obtain ⟨ret, st⟩ := r
+        rw [hp] at h; simp only at h
+        injection h with hb
+        have hcons := conservation _ _ _ _ _ _ _ hp
+        obtain ⟨a1, a2, a3, a4, a5, a6⟩ := accepted_invariants _ _ _ _ _ _ _ hab hp
+        unfold Invariants
+        rw [← hb]
+        exact ⟨hcons, a1, a2, a3, a4, a5, a6⟩
 
 end ChiaModel.C02
